@@ -22,6 +22,18 @@ Say(class, why) == PrintT("@@VERDICT|" \o class \o "|" \o why \o "|" \o ToString
 Constrained == {"ConnAccepted", "ConnRejected", "PlaybackAccepted", "PublishAccepted", "Media", "Metadata", "UnknownTxn"}
 
 Events(rs) == SelectSeq(rs, LAMBDA x : x.k = "event" /\ x.o \in Constrained)
+\* informational results (not mentioned by the listed properties): which of them an input produces
+InfoKinds == {"AckRecv", "PingRespRecv", "UnhandleableAmf0Command", "UnhandleableOnStatusCode"}
+InfoOf(rs) == SelectSeq(rs, LAMBDA x : (x.k = "event" /\ x.o \in InfoKinds) \/ x.k = "unhandled")
+InfoOK(i, rs) ==
+    LET g == InfoOf(rs) IN
+    CASE i.m = "ack"         -> Len(g) = 1 /\ g[1].k = "event" /\ g[1].o = "AckRecv" /\ g[1].v = i.v
+      [] i.m = "pingresp"    -> Len(g) = 1 /\ g[1].k = "event" /\ g[1].o = "PingRespRecv" /\ g[1].ts = i.ts
+      [] i.m = "unknowncmd"  -> Len(g) = 1 /\ g[1].k = "event" /\ g[1].o = "UnhandleableAmf0Command"
+      [] i.m = "onStatus" /\ i.code = "other" -> Len(g) = 1 /\ g[1].k = "event" /\ g[1].o = "UnhandleableOnStatusCode"
+      [] i.m = "unknowntype" -> Len(g) = 1 /\ g[1].k = "unhandled" /\ g[1].ty = i.ty
+      [] i.m = "abort"       -> Len(g) = 1 /\ g[1].k = "unhandled" /\ g[1].ty = 2
+      [] OTHER -> Len(g) = 0
 IsAck(x)   == x.k = "out" /\ x.msg.k = "Ack"
 Outs(rs)   == SelectSeq(rs, LAMBDA x : x.k = "out" /\ ~IsAck(x))
 Acks(rs)   == SelectSeq(rs, LAMBDA x : IsAck(x))
@@ -168,6 +180,7 @@ DoStep ==
                ELSE TRUE
             /\ IF verdictCli = "" /\ ~ProbeOK(Ev.probe, r.st) THEN Say("PROBE", "session state differs from the model after " \o i0.m) ELSE TRUE
             /\ IF verdictCli = "" /\ ~ClockOK(SelectSeq(rs, LAMBDA x : x.k = "out"), Ev.clk) THEN Say("SHAPE", "a control message does not carry the session uptime (" \o i0.m \o ")") ELSE TRUE
+            /\ IF verdictCli = "" /\ Ev.res = "ok" /\ ~InfoOK(i0, rs) THEN Say("SHAPE", "informational results differ from the usual ones (" \o i0.m \o ")") ELSE TRUE
             /\ IF verdictCli = "" /\ ~wantErr /\ ~noEvent /\ ~ShapeOK(r.obs, gotO) THEN Say("SHAPE", "reaction to " \o i0.m \o " does not consist of the usual messages") ELSE TRUE
     /\ st' = r.st
     /\ prevProbe' = Ev.probe
